@@ -365,6 +365,11 @@ def run_reader(case, res):
                     mapper_calls.append(type(data).__name__)
                     if variant.get("user_short_keys") and not variant["key_map"] and "s" in data:
                         seen_user.append((data.get("s"), data.get("i"), data.get("k")))
+                    if variant.get("consuming"):
+                        # a mapper may take the entry apart while it builds the object
+                        data.pop("kind", None)
+                        data.pop("data_id", None)
+                        return data.pop("str")
                     return data["str"]
 
                 kw["mapper"] = _m
@@ -590,7 +595,7 @@ def run_shard(spec, res):
             typed = rng.random() < 0.5
             variant = {"key_map": rng.choice([False, True, "partial"]), "value_map": rng.random() < 0.5, "refs": rng.random() < 0.7,
                        "plain_str": rng.random() < 0.5, "omit_default_kind": rng.random() < 0.3, "generator": rng.choice(GENERATORS),
-                       "user_meta": rng.random() < 0.5, "user_short_keys": rng.random() < 0.4, "via_path": rng.random() < 0.3, "typed_plain_str": rng.random() < 0.5}
+                       "user_meta": rng.random() < 0.5, "user_short_keys": rng.random() < 0.4, "via_path": rng.random() < 0.3, "typed_plain_str": rng.random() < 0.5, "consuming": rng.random() < 0.35}
             run_case({"kind": "reader", "seed": rng.randrange(10**9), "typed": typed, "variant": variant}, res)
             if res.expired():
                 break
